@@ -1411,10 +1411,14 @@ def parse_tree(
         mode_text = text[count:mode_end]
         if strict and mode_text.startswith(b"0"):
             raise ObjectFormatException(f"Invalid mode {mode_text!r}")
-        try:
-            mode = int(mode_text, 8)
-        except ValueError as exc:
-            raise ObjectFormatException(f"Invalid mode {mode_text!r}") from exc
+        # int() accepts more than octal digits (signs, underscores, whitespace,
+        # a "0o" prefix) and any magnitude; a mode is 1 to 11 octal digits
+        # that fit 32 bits, as in git and in the Rust implementation.
+        if not mode_text or mode_text.translate(None, b"01234567"):
+            raise ObjectFormatException(f"Invalid mode {mode_text!r}")
+        mode = int(mode_text, 8)
+        if mode > 0xFFFFFFFF:
+            raise ObjectFormatException(f"Invalid mode {mode_text!r}")
         name_end = text.index(b"\0", mode_end)
         name = text[mode_end + 1 : name_end]
 
